@@ -573,7 +573,9 @@ def stream_strategy(proto, with_malformed):
     long_ = st.tuples(st.lists(valid, min_size=1, max_size=4), st.sampled_from(LONG_COUNTS), st.booleans(),
                       st.lists(seg, min_size=0, max_size=2), st.sampled_from(["none", "direct", "flushed"]), trailer,
                       cuts, cuts, timing).map(build_long)
-    return st.one_of(*([normal] * 23 + [long_]))
+    # one stream in about ten is a long one (hashed selector: Hypothesis favours small integers, and one_of()
+    # would merge repeated branches)
+    return st.integers(0, 65535).flatmap(lambda k: long_ if ((k ^ 0x3A7F) * 40503) % 65521 % 10 == 0 else normal)
 
 
 # ------------------------------------------------------------------------ shards ----
@@ -721,7 +723,7 @@ def _sweep_shard(arg):
 
 def run(ctx):
     ctx.pmap(_sweep_shard, [(k, 16) for k in range(16)])
-    n_luba, n_sci = (2000, 800) if ctx.quick else (28000, 12000)
+    n_luba, n_sci = (1700, 800) if ctx.quick else (28000, 12000)
     shards = [("luba", ctx.seed * 1000 + k, n_luba) for k in range(12)] + \
              [("sci", ctx.seed * 1000 + 500 + k, n_sci) for k in range(4)]
     ctx.pmap(_hyp_shard, shards)
